@@ -178,8 +178,29 @@ def run(ctx):
             out = observe(env.from_data, v, T)
             if out.kind == 'converr':
                 render_check(i, 'main', ty, T, v, out)
+            elif out.kind == 'escape':
+                no_text(i, 'main', ty, v, out)
+        if ty.k == 'tagged':
+            # absent / unknown / ill-kinded tags: the message lists the tags that would have been accepted, whatever their kinds
+            for v in genval.tagged_layout_mutations(ty, genval.tagged_member(ty, rng), rng):
+                out = observe(env.from_data, v, T)
+                ctx.count('bad_tag_messages')
+                if out.kind == 'converr':
+                    render_check(i, 'main', ty, T, v, out)
+                elif out.kind == 'escape':
+                    no_text(i, 'main', ty, v, out)
 
-    drive.for_each_case(ctx, 'main', ctx.budget, body)
+    def no_text(i, sub, ty, v, out):
+        # a rejected value with no error text at all: the conversion died while composing its own message
+        ctx.violation('rendering-total', sub, i, {'type': describe(ty), 'value': short(v, 300), 'outcome': out.brief()},
+                      mech=f"no-error-text:{type(out.exc).__name__}")
+
+    def gen_main(ctx_, rng):
+        if rng.random() < 0.15:
+            return gentypes.gen_tagged(rng, 1)
+        return gentypes.gen_type(rng, rng.choice((1, 2, 2, 3)))
+
+    drive.for_each_case(ctx, 'main', ctx.budget, body, gen=gen_main)
 
     def body_dc(i, rng, ty, T):
         for j in range(4):
